@@ -619,6 +619,195 @@ end Yomm2.Generated.CompareSrc
 """
 
 
+# ------------------------------------------------------------------------------------------------
+# fast_perfect_hash / checked_perfect_hash ::hash_type_id  ->  Yomm2.HashL
+
+SRC_HASH = os.path.join(VERIF, "harness", "xlate", "hash_inst.cpp")
+OUT_HASH = os.path.join(VERIF, "lean", "Yomm2", "Generated", "HashSrc.lean")
+HASH_STATICS = {"hash_mult", "hash_shift", "hash_length"}
+
+
+class HashFn:
+    def __init__(self, param_id):
+        self.param = param_id
+        self.vars = {}
+        self.error_var = None
+
+    def expr(self, e):
+        e = unwrap(e)
+        k = e.get("kind")
+        d = e.get("referencedDecl", {})
+        if k == "DeclRefExpr":
+            if d.get("id") == self.param:
+                return ".param"
+            if d.get("id") in self.vars:
+                return '(.var "%s")' % self.vars[d["id"]]
+            if d.get("kind") == "VarDecl" and d.get("name") in HASH_STATICS:
+                return '(.static "%s")' % d["name"]
+            refuse(e, "reference to " + str(d.get("name")))
+        if k == "BinaryOperator" and e.get("opcode") in ("*", ">>"):
+            a, b = kids(e)
+            return "(%s %s %s)" % (".mul" if e["opcode"] == "*" else ".shr", self.expr(a), self.expr(b))
+        if k == "CallExpr":
+            ks = kids(e)
+            callee = unwrap(ks[0])
+            if callee.get("kind") == "ImplicitCastExpr":
+                callee = kids(callee)[0]
+            if callee.get("referencedDecl", {}).get("name") == "hash_type_id" and len(ks) == 2:
+                return "(.fastHash %s)" % self.expr(ks[1])
+        oc = op_call(e)
+        if oc and oc[0] == "operator[]" and len(oc[1]) == 2:
+            base = unwrap(oc[1][0])
+            if base.get("kind") == "DeclRefExpr" and base.get("referencedDecl", {}).get("name") == "control":
+                return "(.controlAt %s)" % self.expr(oc[1][1])
+        refuse(e, "not an expression I know")
+
+    def cond(self, e):
+        e = unwrap(e)
+        if e.get("kind") == "BinaryOperator":
+            a, b = kids(e)
+            if e.get("opcode") == "||":
+                return "(.or %s %s)" % (self.cond(a), self.cond(b))
+            if e.get("opcode") == ">=":
+                return "(.ge %s %s)" % (self.expr(a), self.expr(b))
+            if e.get("opcode") == "!=":
+                return "(.ne %s %s)" % (self.expr(a), self.expr(b))
+        refuse(e, "not a condition I know")
+
+    def report_block(self, stmts):
+        """unknown_class_error error; error.context = ...; error.type = e; Policy::error(error);"""
+        reported = None
+        called = False
+        for st in stmts:
+            k = st.get("kind")
+            if k == "DeclStmt":
+                ds = kids(st)
+                if len(ds) == 1 and ds[0].get("kind") == "VarDecl" and "unknown_class_error" in ds[0].get("type", {}).get("qualType", ""):
+                    self.error_var = ds[0].get("id")
+                    continue
+                refuse(st, "declaration in the error block that is not the unknown_class_error")
+            if k == "BinaryOperator" and st.get("opcode") == "=":
+                lhs, rhs = kids(st)
+                if lhs.get("kind") == "MemberExpr" and unwrap(kids(lhs)[0]).get("referencedDecl", {}).get("id") == self.error_var:
+                    if lhs.get("name") == "type":
+                        reported = self.expr(rhs)
+                    elif lhs.get("name") != "context":
+                        refuse(st, "assignment to error." + str(lhs.get("name")))
+                    continue
+                refuse(st, "assignment in the error block")
+            inner = unwrap(st)
+            names = []
+
+            def walk(n):
+                if n.get("kind") == "DeclRefExpr":
+                    names.append((n.get("referencedDecl", {}).get("name"), n.get("referencedDecl", {}).get("id")))
+                for c in kids(n):
+                    walk(c)
+            walk(inner)
+            if inner.get("kind") in ("CXXOperatorCallExpr", "CallExpr") and ("error", None) != None and any(i == self.error_var for _, i in names) \
+                    and any(n == "error" and i != self.error_var for n, i in names):
+                called = True
+                continue
+            refuse(st, "statement in the error block")
+        if reported is None or not called:
+            refuse(stmts[0] if stmts else {}, "error block that does not set error.type and call Policy::error")
+        return "(.reportUnknown %s)" % reported
+
+    def stmt(self, s):
+        k = s.get("kind")
+        if k == "CompoundStmt":
+            out = []
+            for c in kids(s):
+                if c.get("kind") == "DeclStmt" and all(x.get("kind") == "UsingDirectiveDecl" for x in kids(c)):
+                    continue
+                out.append(self.stmt(c))
+            return Fn.seq(out)
+        if k == "ReturnStmt":
+            return "(.ret %s)" % self.expr(kids(s)[0])
+        if k == "DeclStmt":
+            out = []
+            for d in kids(s):
+                if d.get("kind") != "VarDecl" or not kids(d):
+                    refuse(d, "declaration without initialiser")
+                v = self.expr(kids(d)[0])
+                self.vars[d.get("id")] = d.get("name")
+                out.append('(.declVar "%s" %s)' % (d.get("name"), v))
+            return Fn.seq(out)
+        if k == "IfStmt":
+            cs = kids(s)
+            if len(cs) != 2:
+                refuse(s, "if with else")
+            c0 = cs[0]
+            # if constexpr (Policy::has_facet<error_handler>) { ... }: the instantiated constant decides
+            if c0.get("kind") == "ConstantExpr":
+                if c0.get("value") == "true":
+                    return self.report_block(kids(cs[1]))
+                return ".skip"
+            return "(.ifThen %s %s)" % (self.cond(c0), self.stmt(cs[1]))
+        if k == "CallExpr":
+            callee = unwrap(kids(s)[0])
+            if callee.get("kind") == "ImplicitCastExpr":
+                callee = kids(callee)[0]
+            if callee.get("referencedDecl", {}).get("name") == "abort":
+                return ".abort"
+        refuse(s, "statement I have no constructor for")
+
+
+def generate_hash():
+    p = subprocess.run(["clang++-14", "-std=c++17", "-fsyntax-only", "-I" + os.path.join(REPO, "include"), "-Xclang",
+                        "-ast-dump=json", "-Xclang", "-ast-dump-filter=perfect_hash", SRC_HASH],
+                       stdout=subprocess.PIPE, stderr=subprocess.PIPE, text=True)
+    if not p.stdout.strip():
+        raise Refuse("clang produced no AST: " + p.stderr[-400:])
+    got = {}
+
+    def walk(n, spec):
+        if n.get("kind") == "ClassTemplateSpecializationDecl":
+            spec = n.get("name")
+        if spec in ("fast_perfect_hash", "checked_perfect_hash") and n.get("kind") == "CXXMethodDecl" and n.get("name") == "hash_type_id" \
+                and body_of(n) is not None and spec not in got:
+            pars = [c for c in kids(n) if c.get("kind") == "ParmVarDecl"]
+            if len(pars) != 1:
+                refuse(n, "expected one parameter")
+            got[spec] = (n, pars[0].get("id"))
+        for c in kids(n):
+            walk(c, spec)
+    for t in stream(p.stdout):
+        walk(t, None)
+    if set(got) != {"fast_perfect_hash", "checked_perfect_hash"}:
+        raise Refuse("no instantiated body found for hash_type_id of " + ", ".join({"fast_perfect_hash", "checked_perfect_hash"} - set(got)))
+    n, pid = got["fast_perfect_hash"]
+    stmts = kids(body_of(n))
+    if len(stmts) != 1 or stmts[0].get("kind") != "ReturnStmt":
+        refuse(n, "fast hash_type_id is not a single return")
+    fast = HashFn(pid).expr(kids(stmts[0])[0])
+    n, pid = got["checked_perfect_hash"]
+    checked = HashFn(pid).stmt(body_of(n))
+    return "\n".join(["import Yomm2.MiniHash",
+                      "/-! Generated by tools/cpp2lean.py from clang's AST of policies/fast_perfect_hash.hpp as instantiated by",
+                      "    harness/xlate/hash_inst.cpp, compiled against /repo. Do not edit. -/",
+                      "namespace Yomm2.Generated.HashSrc", "open Yomm2.HashL", "",
+                      "/-- `fast_perfect_hash<Policy>::hash_type_id(type)`: the returned expression -/",
+                      "def fast : E :=\n  %s" % fast, "",
+                      "/-- `checked_perfect_hash<Policy>::hash_type_id(type)` -/",
+                      "def checked : Stmt :=\n  %s" % checked, "", "end Yomm2.Generated.HashSrc", ""])
+
+
+STUB_HASH = """import Yomm2.MiniHash
+/-! Written by tools/cpp2lean.py because hash_type_id could not be translated on this run:
+    %s
+    The bodies below are placeholders; the proofs about the translated source cannot hold for them. -/
+namespace Yomm2.Generated.HashSrc
+open Yomm2.HashL
+
+def translationRefused : String := %s
+def fast : E := .param
+def checked : Stmt := .skip
+
+end Yomm2.Generated.HashSrc
+"""
+
+
 def body_of(m):
     for c in kids(m):
         if c.get("kind") == "CompoundStmt":
@@ -753,6 +942,17 @@ def main():
     old = open(OUT_BEST).read() if os.path.exists(OUT_BEST) else None
     if old != text:
         with open(OUT_BEST, "w") as f:
+            f.write(text)
+    try:
+        text = generate_hash()
+    except Refuse as ex:
+        msg = "cannot translate hash_type_id: %s" % ex
+        print("cpp2lean: " + msg, file=sys.stderr)
+        text = STUB_HASH % (msg.replace("-/", "- /"), json.dumps(msg))
+        rc = 1
+    old = open(OUT_HASH).read() if os.path.exists(OUT_HASH) else None
+    if old != text:
+        with open(OUT_HASH, "w") as f:
             f.write(text)
     return rc
 
